@@ -644,7 +644,7 @@ impl<'a, 'b> Gen<'a, 'b> {
             }
             0 => self.gen_leaf(ctx),
             1 => {
-                let n = 2 + self.src.weighted(&[8, 5, 2, 1]);
+                let n = 2 + self.src.weighted(&[16, 10, 4, 2, 1, 1]);
                 let mut parts = vec![];
                 let mut c = ctx;
                 for _ in 0..n {
@@ -686,7 +686,7 @@ impl<'a, 'b> Gen<'a, 'b> {
                 Expr::Choice(arms)
             }
             2 => {
-                let n = 2 + self.src.weighted(&[8, 4, 1]);
+                let n = 2 + self.src.weighted(&[16, 8, 2, 1, 1]);
                 let mut arms = vec![];
                 for k in 0..n {
                     // an empty alternative (always matches) at low weight, only as the last arm
